@@ -550,3 +550,90 @@ def coq_cases(tag, imports, fexpr, cases, shard=400, timeout=900, jobs=None):
         for r in ex.map(run, shards):
             out.update(r)
     return out
+
+
+def parse_shown(s):
+    """parse the text produced by Base/CV.v `show`: ints, x<hex> byte strings, [a,b,...] lists"""
+    pos = [0]
+
+    def val():
+        c = s[pos[0]]
+        if c == "[":
+            pos[0] += 1
+            out = []
+            if s[pos[0]] == "]":
+                pos[0] += 1
+                return out
+            while True:
+                out.append(val())
+                if s[pos[0]] == ",":
+                    pos[0] += 1
+                    continue
+                if s[pos[0]] == "]":
+                    pos[0] += 1
+                    return out
+                raise ValueError("bad list at %d in %r" % (pos[0], s[:80]))
+        if c == "x":
+            j = pos[0] + 1
+            while j < len(s) and s[j] in "0123456789abcdef":
+                j += 1
+            b = bytes.fromhex(s[pos[0] + 1:j])
+            pos[0] = j
+            return b
+        j = pos[0]
+        if s[j] == "-":
+            j += 1
+        while j < len(s) and s[j].isdigit():
+            j += 1
+        v = int(s[pos[0]:j])
+        pos[0] = j
+        return v
+    v = val()
+    if pos[0] != len(s):
+        raise ValueError("trailing text in %r" % s[:80])
+    return v
+
+
+def coq_eval(tag, imports, fexpr, inputs, shard=200, timeout=900, jobs=None):
+    """Evaluate `fexpr : input -> cv` on every Gallina input term; returns the parsed values (Python ints, bytes,
+    nested lists) in order.  Comparison (e.g. floats within a tolerance) is then the caller's."""
+    from concurrent.futures import ThreadPoolExecutor
+    d = os.path.join(WORK, "cases")
+    os.makedirs(d, exist_ok=True)
+    jobs = jobs or int(os.environ.get("VERIF_JOBS", "16"))
+    shards = [(k, inputs[k:k + shard]) for k in range(0, len(inputs), shard)]
+
+    def run(sh_):
+        k, chunk = sh_
+        path = os.path.join(d, "%s_e%d.v" % (tag, k))
+        lines = ["From Coq Require Import ZArith QArith List String Bool.",
+                 "From PdfV Require Import Base.CV %s." % " ".join(imports),
+                 "Import ListNotations.", "Open Scope Z_scope.", "Open Scope string_scope.",
+                 "Definition the_f := %s." % fexpr,
+                 "Definition the_inputs := [", ";\n".join("  " + a for a in chunk), "].",
+                 "Eval vm_compute in (map (fun a => show (the_f a)) the_inputs)."]
+        with open(path, "w") as f:
+            f.write("\n".join(lines) + "\n")
+        rc, out = _run_coqc(path, timeout)
+        if rc != 0 or "list string" not in out:
+            raise RuntimeError("coqc failed on %s: %s" % (path, out[-1500:]))
+        body = out[out.index("="):out.rindex(": list string")]
+        shown = re.findall(r'"((?:[^"]|"")*)"', body)
+        if len(shown) != len(chunk):
+            raise RuntimeError("coq_eval %s: %d inputs, %d outputs" % (path, len(chunk), len(shown)))
+        for ext in (".v", ".vo", ".vok", ".vos", ".glob"):
+            try:
+                os.remove(path[:-2] + ext)
+            except OSError:
+                pass
+        try:
+            os.remove(os.path.join(d, ".%s_e%d.aux" % (tag, k)))
+        except OSError:
+            pass
+        return [parse_shown(x) for x in shown]
+
+    out = []
+    with ThreadPoolExecutor(max_workers=jobs) as ex:
+        for r in ex.map(run, shards):
+            out.extend(r)
+    return out
